@@ -29,10 +29,11 @@ structure DayFs where
 
 structure Fs where
   dirs : List String             -- existing ancestor directories: "eth0", "eth0/2023", "eth0/2023/11"
+  ifaces : List String           -- interface directories (the entries of `dirs` without a '/'), in creation order
   days : List DayFs
   deriving Repr, DecidableEq
 
-def Fs.empty : Fs := { dirs := [], days := [] }
+def Fs.empty : Fs := { dirs := [], ifaces := [], days := [] }
 
 def Fs.day? (fs : Fs) (iface : String) (day : Int) : Option DayFs :=
   fs.days.find? fun d => d.iface == iface && d.day == day
@@ -153,13 +154,13 @@ def runWriteOut (hist : List WriteOut) (fs : Fs) (k : Nat) (n : Nat) : Fs :=
     let ops := (program hist fs k).take n
     let existing := fs.day? w.iface day
     let created := existing.isSome || ops.contains (.mkdir dayRel)
-    let fs1 := { fs with dirs := fs.dirs ++ newDirs w.iface dayRel ops }
+    let fs1 := { fs with dirs := fs.dirs ++ newDirs w.iface dayRel ops,
+                         ifaces := if ops.contains (.mkdir "") then fs.ifaces ++ [w.iface] else fs.ifaces }
     if created then fs1.setDay (runDay hist k (baseOf hist fs k) (existing.getD (freshDay w.iface day)) ops) else fs1
 
 /-! ### readers -/
 
-def ifacesOf (fs : Fs) : List String :=
-  (fs.dirs.filter fun p => !p.contains '/').eraseDups
+def ifacesOf (fs : Fs) : List String := fs.ifaces
 
 /-- block number `i` of a day is readable iff every column that holds data for it stores that
     write-out's payload at the block's position -/
@@ -189,11 +190,13 @@ def queryView (hist : List WriteOut) (fs : Fs) : String :=
 
 /-- `ReadMetadata` over the whole range: a day's totals come from the directory name when it carries
     a summary, from `.blockmeta` otherwise -/
-def listView (hist : List WriteOut) (fs : Fs) : String :=
-  renderList ((ifacesOf fs).map fun i =>
+def listTotals (hist : List WriteOut) (fs : Fs) : List (String × Totals) :=
+  (ifacesOf fs).map fun i =>
     (i, (fs.days.filter (·.iface == i)).foldl (fun acc d =>
       match d.metaIds with
       | none => acc
-      | some ids => addTotals acc (d.named.getD (totalsIds hist ids))) zeroTotals))
+      | some ids => addTotals acc (d.named.getD (totalsIds hist ids))) zeroTotals)
+
+def listView (hist : List WriteOut) (fs : Fs) : String := renderList (listTotals hist fs)
 
 end WO
